@@ -657,6 +657,12 @@ func (c07) Exec(sc *sim.Scenario, env *sim.Env) *sim.Violation {
 					cp.Init() // the receiver is a CPU that has been in use before (pooled working copy)
 				}
 				cp.InitFrom(mc.altB)
+				// the copy is a CPU of its own: what the original's bus is given afterwards (here:
+				// a device that answers STP everywhere) is none of the copy's business
+				if mc.altPool != nil {
+					mc.altPool.split = true // the pooled original is re-attached before its next use
+				}
+				mc.altB.Bus.AttachReader(0, 0xFFFFFF, func(uint32) uint8 { return 0xDB })
 				mc = &Machine{CPU: cpuB{cp}, Mem: mem, altB: cp}
 			}
 			st.Probe("cpu_made_with_InitFrom")
